@@ -16,6 +16,7 @@ CATS = {0: MessageCategory.NORMAL, 1: MessageCategory.DELAYED, 2: MessageCategor
 CAT_TERM = {0: "Normal", 1: "DelayedC", 2: "DeadC"}
 KIND = {"": 0, "delayed": 1, "dead": 2}
 KIND_TERM = {0: "QNormal", 1: "QDelayed", 2: "QDead"}
+ZONE = {0: "normal", 1: "delayed", 2: "dead"}
 
 
 def num(s: str) -> int:
@@ -161,7 +162,7 @@ async def run_history(hist: dict, loop) -> dict:
         now = CLOCK.now_us()
         n0 = len(w.srv.log)
         res = 0
-        ev = {"op": kind, "t": now}
+        ev = {"op": kind, "t": now, "held_before": dict(held)}
         if kind == "declare":
             await api(w.mb.queue_declare(f"q{o['q']}"))
             term = f"(RDeclare {o['q']})"
@@ -188,7 +189,7 @@ async def run_history(hist: dict, loop) -> dict:
             ev.update(id=o["id"], params=p, q=o["q"], prio=o["prio"], topic=o["topic"])
         elif kind == "take":
             c = o["c"]
-            t = asyncio.ensure_future(w.consumers[c].consume())
+            t = asyncio.ensure_future(api(w.consumers[c].consume()))
             await w.settle()
             got = None
             if t.done():
@@ -246,8 +247,9 @@ def w_state(w: RabbitWorld) -> dict:
     for name, l in w.srv.queues.items():
         q, kd = qk(name)
         for pos, m in enumerate(l):
-            places.setdefault(num(m["id"]), []).append((("ready", "delayed", "dead")[kd], q, pos))
+            places.setdefault(num(m["id"]), []).append((("ready", "delayed", "dead")[kd], q, pos, ZONE[kd]))
     for u in w.srv.unacked:
-        places.setdefault(num(u["msg"]["id"]), []).append(("unacked", qk(u["q"])[0], u["ctag"]))
+        q, kd = qk(u["q"])
+        places.setdefault(num(u["msg"]["id"]), []).append(("unacked", q, u["ctag"], ZONE[kd]))
     buffers = {c: [num(k.id_) for (k, _, _) in list(cons.queue._queue)] for c, cons in w.consumers.items()}
     return {"places": places, "buffers": buffers}
